@@ -29,6 +29,7 @@ _RealPool = cf.ThreadPoolExecutor
 _real_async_wait = asyncio.wait
 _real_ensure_future = asyncio.ensure_future
 
+LAST_GUARD_FRAMES: List[str] = []  # where the harness's case guard found a thread stuck inside tawazi
 STALL_S = 8.0  # no event for that long => the watchdog looks for a structural hang witness
 
 
@@ -49,7 +50,7 @@ class InjectedError(Exception):
 
 
 class Tok:
-    __slots__ = ("n", "kind", "future", "site", "observed", "nid", "pool")
+    __slots__ = ("n", "kind", "future", "site", "observed", "nid", "pool", "ident", "tid")
 
     def __init__(self, n: int, kind: str) -> None:
         self.n = n
@@ -59,6 +60,8 @@ class Tok:
         self.observed = False
         self.nid: Optional[str] = None
         self.pool: Any = None
+        self.ident: Optional[int] = None  # worker thread that picked the node up
+        self.tid: Optional[int] = None
 
 
 def current_exec() -> "Optional[Exec]":
@@ -214,8 +217,37 @@ class Exec:
                     if starved:
                         e = {"seq": len(self.events), "k": "STARVED", "starved": starved}
                         self.events.append(e)
+                    blocked = self._blocked_before_entry([t for t in missing if t.tid is not None])
+                    if blocked:
+                        self.events.append({"seq": len(self.events), "k": "BLOCKED", "blocked": blocked})
                     return
                 self.cv.wait(0.01)
+
+    def _blocked_before_entry(self, toks: List[Tok]) -> List[Dict[str, Any]]:
+        """Structural witness for "a worker has picked the node up, but something inside tawazi keeps it from entering
+        its function": in three samples 0.2 s apart the worker thread is asleep (kernel state S, i.e. waiting, not
+        merely deprived of CPU) with its innermost Python frame in tawazi's code.  Called with self.cv held."""
+        out: List[Dict[str, Any]] = []
+        for t in toks:
+            where = None
+            ok = True
+            for _ in range(3):
+                try:
+                    with open(f"/proc/self/task/{t.tid}/stat") as f:
+                        state = f.read().rsplit(")", 1)[1].split()[0]
+                except Exception:  # noqa: BLE001
+                    ok = False
+                    break
+                fr = sys._current_frames().get(t.ident)
+                here = f"{fr.f_code.co_filename}:{fr.f_lineno}:{fr.f_code.co_name}" if fr is not None else ""
+                if state != "S" or "/tawazi/" not in here or t.site is not None or (where is not None and here != where):
+                    ok = False
+                    break
+                where = here
+                self.cv.wait(0.2)
+            if ok and where:
+                out.append({"tok": t.n, "nid": t.nid, "at": where})
+        return out
 
     def _pick(self, kind: str, all_completed: bool) -> List[List[Tok]]:
         """Stages of nodes to release.  FIRST_COMPLETED: one stage (a drawn non-empty subset of the awaited
@@ -432,6 +464,7 @@ class Exec:
 
         def run(*a: Any, **k: Any) -> Any:
             TL.ex, TL.tok = ex, tok
+            tok.ident, tok.tid = threading.get_ident(), threading.get_native_id()
             try:
                 return fn(*a, **k)
             finally:
